@@ -102,6 +102,7 @@ func checkSplit(src string) string {
 	// inside one piece (its positions never cross a semicolon token) and the
 	// statements come in the order of their pieces.
 	lastPiece := -1
+	stmtOfPiece := map[int]parser.Statement{}
 	for k, st := range stmts {
 		if astx.IsNilNode(st) {
 			continue
@@ -136,6 +137,26 @@ func checkSplit(src string) string {
 			return fmt.Sprintf("statement %d reported by Parse lies in piece %d, after a statement of piece %d: order or number of statements does not follow the pieces", k, piece, lastPiece)
 		}
 		lastPiece = piece
+		stmtOfPiece[piece] = st
+	}
+	// A piece that parses on its own is a statement of the source whatever
+	// surrounds it: Parse(source) must report it (equal up to the shift) even
+	// when other pieces are in error.
+	for pi, in := range infos {
+		if in.ntoks == 0 {
+			continue
+		}
+		ps, perr := parser.Parse(in.text)
+		if perr != nil || len(ps) != 1 {
+			continue
+		}
+		got, ok := stmtOfPiece[pi]
+		if !ok {
+			return fmt.Sprintf("piece %d %+q parses on its own, but Parse(source) reports no statement for it", pi, in.text)
+		}
+		if m := astx.EqualShifted(ps[0], got, in.offset); m != "" {
+			return fmt.Sprintf("piece %d %+q parsed alone differs from the statement Parse(source) reports for it at %s", pi, in.text, m)
+		}
 	}
 	var pieceStmts []parser.Statement
 	for _, in := range infos {
